@@ -126,21 +126,25 @@ inductive Seg
   | esc (s : Str)
 deriving Repr, DecidableEq
 
-/-- the inner `for (i, line) in content.split_inclusive('\n').enumerate()` -/
-def styledLines (cw : Char → Nat) : LW → Bool → List Str → LW × List Str
-  | st, _, [] => (st, [])
-  | st, firstLine, line :: ls =>
-    let st0 := if firstLine then st else st.reset
-    let (st1, out) := st0.wrap cw (findWords line)
-    let (st2, rest) := styledLines cw st1 false ls
-    (st2, out ++ rest)
+def endsNl (l : Str) : Bool := l.getLast? == some '\n'
 
-def styledSegs (cw : Char → Nat) : LW → List Seg → List Seg
-  | _, [] => []
-  | st, .esc e :: segs => .esc e :: styledSegs cw st segs
-  | st, .text t :: segs =>
-    let (st1, out) := styledLines cw st true (splitInclusive t)
-    .text out.flatten :: styledSegs cw st1 segs
+/-- the inner `for line in content.split_inclusive('\n')`: the wrapper is reset at the start of a line - also when
+the line starts a new block of styled text (after the `fix:` for finding F25; it used to be reset only between the
+lines of one block, so a block that began right after a line break went on with the previous line's width and indent) -/
+def styledLines (cw : Char → Nat) : LW → Bool → List Str → (LW × Bool) × List Str
+  | st, atStart, [] => ((st, atStart), [])
+  | st, atStart, line :: ls =>
+    let st0 := if atStart then st.reset else st
+    let (st1, out) := st0.wrap cw (findWords line)
+    let (r, rest) := styledLines cw st1 (endsNl line) ls
+    (r, out ++ rest)
+
+def styledSegs (cw : Char → Nat) : LW → Bool → List Seg → List Seg
+  | _, _, [] => []
+  | st, b, .esc e :: segs => .esc e :: styledSegs cw st b segs
+  | st, b, .text t :: segs =>
+    let (r, out) := styledLines cw st b (splitInclusive t)
+    .text out.flatten :: styledSegs cw r.1 r.2 segs
 
 def Seg.chars : Seg → Str
   | .text s => s
@@ -150,7 +154,7 @@ def flattenSegs (segs : List Seg) : Str := (segs.map Seg.chars).flatten
 
 /-- `StyledStr::wrap`: wrap the text chunks, copy the styling, final `trim_end` -/
 def styledWrap (cw : Char → Nat) (segs : List Seg) (hard : Nat) : Str :=
-  trimEnd (flattenSegs (styledSegs cw (LW.new hard) segs))
+  trimEnd (flattenSegs (styledSegs cw (LW.new hard) false segs))
 
 end TextWrap
 end Clap
